@@ -32,6 +32,8 @@ func execLine(line string) string {
 			return execGen(t[1:])
 		case "build":
 			return execBuild(t[1:])
+		case "promise":
+			return execPromise(t[1:])
 		case "cap":
 			return execCap(t[1:])
 		case "text":
@@ -54,6 +56,7 @@ var Shard, Shards = 0, 1
 var generators = map[string]func(rec *lib.Rec, r *lib.Rng, thorough bool){
 	"C13": genC13,
 	"C10": genC10,
+	"C11": genC11,
 	"C04": func(rec *lib.Rec, r *lib.Rng, th bool) { genBuild(rec, r, th, "C04") },
 	"C05": func(rec *lib.Rec, r *lib.Rng, th bool) { genBuild(rec, r, th, "C05") },
 	"C16": func(rec *lib.Rec, r *lib.Rng, th bool) { genBuild(rec, r, th, "C16") },
